@@ -473,8 +473,58 @@ func (s *State) opaqueErr(kind string) Value {
 
 // ---- memory access ----------------------------------------------------------
 
+// embedArray moves the array at path inside object o into a shadow object (once) and returns the shadow.
+func (s *State) embedArray(o *Obj, path []Sel) *Obj {
+	cur := s.contents(o)
+	v := cur
+	for _, sel := range path {
+		if ev, ok := v.(*EmbedV); ok {
+			v = s.contents(ev.Obj)
+		}
+		switch c := v.(type) {
+		case *StructV:
+			v = c.Fields[sel.Field]
+		default:
+			unsup("slicing an array nested in %T", v)
+		}
+	}
+	if ev, ok := v.(*EmbedV); ok {
+		return ev.Obj
+	}
+	av, ok := v.(*ArrayV)
+	if !ok {
+		unsup("slicing a field that holds %T", v)
+	}
+	var t types.Type = o.Type
+	for _, sel := range path {
+		if st, ok := t.Underlying().(*types.Struct); ok {
+			t = st.Field(sel.Field).Type()
+		}
+	}
+	sh := s.newObj(t, av, o.Name+".embedded", o.Fresh)
+	s.heap[o.ID] = s.replaceAt(cur, path, &EmbedV{Obj: sh})
+	return sh
+}
+
+// replaceAt: like update, but replaces the value at path itself (no redirection through markers on the last step).
+func (s *State) replaceAt(v Value, path []Sel, nv Value) Value {
+	if len(path) == 0 {
+		return nv
+	}
+	c, ok := v.(*StructV)
+	if !ok {
+		unsup("replaceAt into %T", v)
+	}
+	n := &StructV{Type: c.Type, Fields: append([]Value{}, c.Fields...)}
+	n.Fields[path[0].Field] = s.replaceAt(c.Fields[path[0].Field], path[1:], nv)
+	return n
+}
+
 func (s *State) navigate(v Value, path []Sel) Value {
 	for _, sel := range path {
+		if ev, ok := v.(*EmbedV); ok {
+			v = s.contents(ev.Obj)
+		}
 		switch c := v.(type) {
 		case *StructV:
 			v = c.Fields[sel.Field]
@@ -506,10 +556,18 @@ func (s *State) navigate(v Value, path []Sel) Value {
 			unsup("navigate into %T", v)
 		}
 	}
+	if ev, ok := v.(*EmbedV); ok {
+		v = s.contents(ev.Obj)
+	}
 	return v
 }
 
 func (s *State) update(v Value, path []Sel, nv Value) Value {
+	if ev, ok := v.(*EmbedV); ok {
+		// the array lives in its shadow object: write there, the marker stays
+		s.heap[ev.Obj.ID] = s.update(s.contents(ev.Obj), path, nv)
+		return v
+	}
 	if len(path) == 0 {
 		return nv
 	}
